@@ -308,6 +308,26 @@ def build_replay(unit, repo, outdir):
         return None, 'no replay driver for unit'
     exe = os.path.join(outdir, 'replay')
     extra = [os.path.join(repo, s) for s in unit.get('replay_sources', [])]
+    if unit.get('replay_full_library'):
+        # drivers that go through the public API need the whole library, compiled from the tree under test
+        objdir = os.path.join(outdir, 'libobj')
+        os.makedirs(objdir, exist_ok=True)
+        srcs = []
+        for root_, dirs_, files_ in os.walk(os.path.join(repo, 'src')):
+            dirs_[:] = [d for d in dirs_ if not d.startswith('.')]
+            for fn_ in files_:
+                if fn_.endswith('.cc'):
+                    srcs.append(os.path.join(root_, fn_))
+        def cc_one(src_):
+            obj_ = os.path.join(objdir, re.sub(r'\W+', '_', os.path.relpath(src_, repo)) + '.o')
+            rc_, o_, e_, _ = run(['g++', '-std=c++11', '-O0', '-w', '-DHAVE_CONFIG_H', '-I' + repo, '-I' + os.path.join(repo, 'src'), '-c', src_, '-o', obj_], 900)
+            return obj_ if rc_ == 0 else None, e_
+        with concurrent.futures.ThreadPoolExecutor(max_workers=16) as ex_:
+            res_ = list(ex_.map(cc_one, srcs))
+        bad_ = [e_ for o_, e_ in res_ if o_ is None]
+        if bad_:
+            return None, 'library build for replay failed: ' + bad_[0][-400:]
+        extra = [o_ for o_, _ in res_]
     cmd = ['g++', '-std=c++11', '-O0', '-g', '-fno-access-control', '-w', '-I' + repo, '-I' + os.path.join(repo, 'src'),
            '-I' + INCLUDE, src] + extra + unit.get('replay_link', []) + ['-o', exe]
     rc, out, err, _ = run(cmd, 600)
